@@ -260,6 +260,7 @@ func (m *mctx) mutants(pairs int) []mutant {
 		remine("box-in-box", types.Transactions{B.Box(u1, types.Transactions{inner}, bt+500)})
 	}
 	if m.oldTx != nil {
+		m.cl.G.U.Tx(m.oldTx)
 		remine("replay-ancestor-tx", types.Transactions{m.oldTx})
 		remine("box-with-ancestor-tx", types.Transactions{B.Box(u1, types.Transactions{m.oldTx}, m.oldTx.Expiration())})
 	}
@@ -518,8 +519,11 @@ func scenario(c *run.Ctx, idx int) {
 			}
 		}
 		for _, old := range cl.Chain[:len(cl.Chain)-1] {
-			if len(old.Txs) > 0 && old.Txs[0].Expiration() >= uint64(base.Time()) {
-				m.oldTx = old.Txs[0]
+			for _, otx := range old.Txs {
+				// a plain transfer executes again if it is not recognised as a replay
+				if otx.Type() == params.OrdinaryTx && len(otx.Data()) == 0 && otx.Expiration() >= uint64(base.Time()) && otx.Expiration()-uint64(base.Time()) <= uint64(params.MaxTxLifeTime) {
+					m.oldTx = otx
+				}
 			}
 		}
 		muts := m.mutants(c.Pick(8, 60))
